@@ -39,6 +39,31 @@ var mutatingCalls = map[string]bool{"openat": true, "open": true, "creat": true,
 var straceLine = regexp.MustCompile(`^([a-z0-9_]+)\((.*)$`)
 
 // traceStore runs the child under strace and returns the main thread's calls that refer to dir.
+// mainTraceFirst orders the per-thread trace files of `strace -ff` so that the main thread's comes first: it is the
+// one that begins with the execve call. (Thread ids are no guide: with pid_max = 32768 they wrap around on a busy
+// machine and a later thread may get a smaller id — seen as a spurious "calls from other threads" under load.)
+func mainTraceFirst(files []string) []string {
+	sort.Slice(files, func(i, j int) bool {
+		a, _ := strconv.Atoi(filepath.Ext(files[i])[1:])
+		b, _ := strconv.Atoi(filepath.Ext(files[j])[1:])
+		return a < b
+	})
+	for i, f := range files {
+		fh, err := os.Open(f)
+		if err != nil {
+			continue
+		}
+		head := make([]byte, 16)
+		n, _ := fh.Read(head)
+		fh.Close()
+		if strings.HasPrefix(string(head[:n]), "execve(") {
+			files[0], files[i] = files[i], files[0]
+			break
+		}
+	}
+	return files
+}
+
 func traceStore(env *storeEnv, reqs []childReq, dir, scratch string) ([]sysCall, int, error) {
 	prefix := filepath.Join(scratch, "trace")
 	in, _ := json.Marshal(reqs)
@@ -54,12 +79,7 @@ func traceStore(env *storeEnv, reqs []childReq, dir, scratch string) ([]sysCall,
 	if len(files) == 0 {
 		return nil, 0, fmt.Errorf("strace wrote no trace files")
 	}
-	// main thread = smallest pid
-	sort.Slice(files, func(i, j int) bool {
-		a, _ := strconv.Atoi(filepath.Ext(files[i])[1:])
-		b, _ := strconv.Atoi(filepath.Ext(files[j])[1:])
-		return a < b
-	})
+	files = mainTraceFirst(files)
 	otherThreads := 0
 	for _, f := range files[1:] {
 		data, _ := os.ReadFile(f)
@@ -111,7 +131,7 @@ func crashBefore(env *storeEnv, reqs []childReq, c sysCall, scratch string) (boo
 		_ = os.Remove(f)
 	}
 	in, _ := json.Marshal(reqs)
-	cmd := exec.Command("strace", "-ff", "-y", "-s", "0", "-o", prefix, "-e", "trace="+c.Name,
+	cmd := exec.Command("strace", "-ff", "-y", "-s", "0", "-o", prefix, "-e", "trace="+c.Name+",execve",
 		"-e", fmt.Sprintf("inject=%s:error=EINTR:signal=KILL:when=%d", c.Name, c.Index), env.bin)
 	cmd.Stdin = bytes.NewReader(in)
 	cmd.Env = append(os.Environ(), "GOMAXPROCS=2")
@@ -122,11 +142,7 @@ func crashBefore(env *storeEnv, reqs []childReq, c sysCall, scratch string) (boo
 	if len(files) == 0 {
 		return false, fmt.Errorf("strace wrote no trace files: %s", trunc(errb.String(), 300))
 	}
-	sort.Slice(files, func(i, j int) bool {
-		a, _ := strconv.Atoi(filepath.Ext(files[i])[1:])
-		b, _ := strconv.Atoi(filepath.Ext(files[j])[1:])
-		return a < b
-	})
+	files = mainTraceFirst(files)
 	data, _ := os.ReadFile(files[0])
 	lines := strings.Split(strings.TrimSpace(string(data)), "\n")
 	n := 0
